@@ -78,7 +78,7 @@ def check(cx):
     }
     for callee, allowed in table.items():
         cx.guard(r1, callee, p.fn, callee)
-        cs = K.callers_of(p, callee)
+        cs = K.callers_of(p, callee, allowed)
         if not cs:
             cx.bad(r1, "no-caller:" + callee, "", "%s has no caller" % callee)
         for c in cs:
@@ -167,7 +167,7 @@ def check(cx):
         if callee not in p.fns:
             cx.bad(r2, "anchor-missing:" + callee, "", "decoder `%s` not found (renamed?)" % callee)
             continue
-        cs = K.callers_of(p, callee)
+        cs = K.callers_of(p, callee, set(allowed))
         if not cs:
             cx.ok(r2, callee + ":no-callers", p.fn(callee).where(), "no production caller")
         for c in cs:
